@@ -387,3 +387,199 @@ pub proof fn lemma_byte_low_bits(b: u8, w: nat)
         assert((8 - w + i) / 8 == 0 && (8 - w + i) % 8 == g);
     }
 }
+
+// ===== decoders (what the readers compute), tied to the encoders above by the round-trip lemmas below =====
+
+/// value of the w-bit field at bit position pos (11.3.4)
+pub open spec fn field_val(bytes: Seq<u8>, pos: int, w: nat) -> nat {
+    bits_val(bits_of(bytes).subrange(pos, pos + w))
+}
+
+/// 11.9.3.5 - 11.9.3.8: (announced length, position after the determinant); None: input exhausted
+pub open spec fn dec_len_general(bytes: Seq<u8>, pos: int, limit: int) -> Option<(u64, int)> {
+    if pos + 1 > limit { None }
+    else if !bit_at(bytes, pos) {
+        if pos + 8 > limit { None } else { Some((field_val(bytes, pos + 1, 7) as u64, pos + 8)) }
+    } else if pos + 2 > limit { None }
+    else if !bit_at(bytes, pos + 1) {
+        if pos + 16 > limit { None } else { Some((field_val(bytes, pos + 2, 14) as u64, pos + 16)) }
+    } else if pos + 8 > limit { None }
+    else {
+        let m = field_val(bytes, pos + 2, 6);
+        Some(((16384 * (if m >= 4 { 4 } else { m })) as u64, pos + 8))
+    }
+}
+
+/// 11.7 decoder: length in octets, then that many octets (at most 8 are representable)
+pub open spec fn dec_semi(bytes: Seq<u8>, pos: int, limit: int) -> Option<(u64, int)> {
+    match dec_len_general(bytes, pos, limit) {
+        Some((n, p1)) => if n <= 8 && p1 + 8 * n <= limit { Some((field_val(bytes, p1, (8 * n) as nat) as u64, p1 + 8 * n)) } else { None },
+        None => None,
+    }
+}
+
+/// 11.6 decoder
+pub open spec fn dec_nsnnwn(bytes: Seq<u8>, pos: int, limit: int) -> Option<(u64, int)> {
+    if pos + 1 > limit { None }
+    else if bit_at(bytes, pos) { dec_semi(bytes, pos + 1, limit) }
+    else if pos + 7 > limit { None }
+    else { Some((field_val(bytes, pos + 1, 6) as u64, pos + 7)) }
+}
+
+/// constrained number decoder (11.5 / 11.3 with bounds): None if exhausted or the field exceeds the range
+pub open spec fn dec_cwn(bytes: Seq<u8>, pos: int, limit: int, range: u64) -> Option<(u64, int)> {
+    let w = width(range);
+    if pos + w > limit { None }
+    else if field_val(bytes, pos, w) > range { None }
+    else { Some((field_val(bytes, pos, w) as u64, pos + w)) }
+}
+
+pub open spec fn range_u(lb: Option<u64>, ub: Option<u64>) -> u64 {
+    if len_ub(ub) >= len_lb(lb) { (len_ub(ub) - len_lb(lb)) as u64 } else { 0 }
+}
+
+pub proof fn lemma_bits_val_bound(bs: Seq<bool>)
+    ensures bits_val(bs) < pow2(bs.len())
+    decreases bs.len()
+{
+    if bs.len() > 0 { lemma_bits_val_bound(bs.drop_last()); }
+}
+
+pub proof fn lemma_pow2_values()
+    ensures pow2(0) == 1, pow2(6) == 64, pow2(7) == 128, pow2(8) == 256, pow2(14) == 16384, pow2(16) == 65536, pow2(63) == 0x8000_0000_0000_0000, pow2(64) == 0x1_0000_0000_0000_0000,
+{
+    assert(pow2(6) == 64) by(compute);
+    assert(pow2(7) == 128) by(compute);
+    assert(pow2(8) == 256) by(compute);
+    assert(pow2(14) == 16384) by(compute);
+    assert(pow2(16) == 65536) by(compute);
+    assert(pow2(63) == 0x8000_0000_0000_0000) by(compute);
+    assert(pow2(64) == 0x1_0000_0000_0000_0000) by(compute);
+}
+
+pub proof fn lemma_pow2_mono(a: nat, b: nat)
+    requires a <= b
+    ensures pow2(a) <= pow2(b), pow2(a) >= 1
+    decreases b
+{
+    if a < b { lemma_pow2_mono(a, (b - 1) as nat); }
+    else { lemma_pow2_pos(a); }
+}
+
+pub proof fn lemma_pow2_pos(a: nat)
+    ensures pow2(a) >= 1
+    decreases a
+{
+    if a > 0 { lemma_pow2_pos((a - 1) as nat); }
+}
+
+/// a field that starts with nbits(v, w) has value v (round trip of 11.3 at the spec level)
+pub proof fn lemma_field_val_nbits(bytes: Seq<u8>, pos: int, v: u64, w: nat)
+    requires w <= 64, fits(v, w), 0 <= pos, starts_with(bytes, pos, nbits(v, w))
+    ensures field_val(bytes, pos, w) == v
+{
+    let sub = bits_of(bytes).subrange(pos, pos + w);
+    assert forall|i: int| 0 <= i < w implies sub[i] == nbits(v, w)[i] by {
+        assert(bit_at(bytes, pos + i) == nbits(v, w)[i]);
+        assert(sub[i] == bits_of(bytes)[pos + i]);
+    }
+    assert(sub =~= nbits(v, w));
+    lemma_bits_val_nbits(v, w);
+}
+
+/// reading a w-bit field into the tail of eight zero bytes and converting them big-endian yields the field value
+pub proof fn lemma_read_field(rbytes: Seq<u8>, pos: int, w: nat, before: Seq<u8>, after: Seq<u8>, value: u64)
+    requires
+        w <= 64, 0 <= pos, pos + w <= rbytes.len() * 8,
+        before.len() == 8, forall|k: int| 0 <= k < 8 ==> before[k] == 0u8,
+        copied(before, after, rbytes, pos, 64 - w, w as int),
+        forall|j: int| 0 <= j < 8 ==> #[trigger] after[j] == be_byte(value, j),
+    ensures field_val(rbytes, pos, w) == value, fits(value, w)
+{
+    assert forall|g: int| 0 <= g < 64 - w implies !#[trigger] bit_at(after, g) by {
+        assert(bit_at(after, g) == bit_at(before, g));
+        lemma_zero_byte_bits((g % 8) as u8);
+    }
+    lemma_be_fits(value, after, w);
+    lemma_be_bits(value, after, w);
+    let sub = bits_of(rbytes).subrange(pos, pos + w);
+    assert forall|i: int| 0 <= i < w implies sub[i] == nbits(value, w)[i] by {
+        let j = 64 - w + i;
+        assert(bit_at(after, j) == bit_at(rbytes, pos + (j - (64 - w))));
+        assert(bits_of(after).subrange(64 - w, 64)[i] == bits_of(after)[j]);
+    }
+    assert(sub =~= nbits(value, w));
+    lemma_bits_val_nbits(value, w);
+}
+
+/// a copy into the sub-slice `whole[a..]` seen on the whole destination
+pub proof fn lemma_subslice_copied(before: Seq<u8>, after: Seq<u8>, src: Seq<u8>, sp: int, a: int)
+    requires
+        0 <= a <= before.len(), after.len() == before.len(),
+        forall|k: int| 0 <= k < a ==> after[k] == before[k],
+        copied(before.subrange(a, before.len() as int), after.subrange(a, after.len() as int), src, sp, 0, (before.len() - a) * 8),
+    ensures copied(before, after, src, sp, 8 * a, (before.len() - a) * 8)
+{
+    let n = before.len() as int;
+    let sb = before.subrange(a, n);
+    let sa = after.subrange(a, n);
+    assert forall|j: int| 0 <= j < n * 8 implies #[trigger] bit_at(after, j) ==
+        (if 8 * a <= j < 8 * a + (n - a) * 8 { bit_at(src, sp + (j - 8 * a)) } else { bit_at(before, j) }) by {
+        if j >= 8 * a {
+            let i = j - 8 * a;
+            assert(bit_at(sa, i) == bit_at(src, sp + i));
+            assert((8 * a + i) / 8 == a + i / 8 && (8 * a + i) % 8 == i % 8);
+            assert(sa[i / 8] == after[a + i / 8]);
+        } else {
+            assert(j / 8 < a);
+        }
+    }
+}
+
+/// reading w bits into the tail of one zero byte yields the field value
+pub proof fn lemma_read_byte_field(rbytes: Seq<u8>, pos: int, w: nat, before: Seq<u8>, after: Seq<u8>)
+    requires
+        w <= 8, 0 <= pos, pos + w <= rbytes.len() * 8,
+        before.len() == 1, before[0] == 0u8,
+        copied(before, after, rbytes, pos, 8 - w, w as int),
+    ensures field_val(rbytes, pos, w) == after[0], after[0] < pow2(w)
+{
+    let b = after[0];
+    lemma_byte_low_bits(b, w);
+    assert(seq![b] =~= after);
+    let sub = bits_of(rbytes).subrange(pos, pos + w);
+    assert forall|i: int| 0 <= i < w implies sub[i] == nbits(b as u64, w)[i] by {
+        let j = 8 - w + i;
+        assert(bit_at(after, j) == bit_at(rbytes, pos + (j - (8 - w))));
+        assert(bits_of(after).subrange(8 - w, 8)[i] == bits_of(after)[j]);
+    }
+    assert(sub =~= nbits(b as u64, w));
+    // leading 8 - w bits are zero, hence b fits into w bits
+    assert forall|g: int| 0 <= g < 8 - w implies !#[trigger] bit_at(after, g) by {
+        assert(bit_at(after, g) == bit_at(before, g));
+        lemma_zero_byte_bits((g % 8) as u8);
+    }
+    lemma_byte_fits(b, w);
+    lemma_bits_val_nbits(b as u64, w);
+    lemma_bits_val_bound(sub);
+}
+
+pub proof fn lemma_byte_fits(b: u8, w: nat)
+    requires w <= 8, forall|g: int| 0 <= g < 8 - w ==> !#[trigger] bit_at(seq![b], g)
+    ensures fits(b as u64, w)
+    decreases 8 - w
+{
+    if w < 8 {
+        lemma_byte_fits(b, w + 1);
+        let g = (7 - w) as u8;
+        let wu = w as u64;
+        assert(!bit_at(seq![b], g as int));
+        assert(seq![b][0] == b);
+        assert((b & (0x80u8 >> g)) == 0);
+        let v = b as u64;
+        assert(v >> wu == 0) by(bit_vector) requires wu < 8, g == 7 - wu, (b & (0x80u8 >> g)) == 0, v == b as u64, wu + 1 >= 64 || (v >> ((wu + 1) as u64)) == 0;
+    } else {
+        let v = b as u64;
+        assert(v >> 8 == 0) by(bit_vector) requires v == b as u64;
+    }
+}
